@@ -622,7 +622,40 @@ func checkWrapperAgreement(c *Ctx, r *Report, gate *connGate) {
 		r.Unresolved("C04-R3", "error wrapper used by the per-attempt functions (func(error, ...) error)")
 		return
 	}
-	for _, ret := range returnsOf(wrapper) {
+	// the wrapper and the package-local helpers it delegates the classification to (func(...) error, depth 2)
+	parts := []*ssa.Function{wrapper}
+	seenP := map[*ssa.Function]bool{wrapper: true}
+	for d, frontier := 0, []*ssa.Function{wrapper}; d < 2; d++ {
+		var next []*ssa.Function
+		for _, f := range frontier {
+			eachInstr(f, func(in ssa.Instruction) {
+				cc := getCall(in)
+				if cc == nil {
+					return
+				}
+				sc := cc.StaticCallee()
+				if sc == nil || seenP[sc] || sc.Pkg != wrapper.Pkg || sc.Blocks == nil || sc.Signature.Results().Len() != 1 || sc.Signature.Results().At(0).Type().String() != "error" {
+					return
+				}
+				seenP[sc] = true
+				parts = append(parts, sc)
+				next = append(next, sc)
+			})
+		}
+		frontier = next
+	}
+	type pr struct {
+		f   *ssa.Function
+		ret *ssa.Return
+	}
+	var rets []pr
+	for _, f := range parts {
+		for _, ret := range returnsOf(f) {
+			rets = append(rets, pr{f, ret})
+		}
+	}
+	for _, x := range rets {
+		ret := x.ret
 		class := ""
 		for _, cf := range normFacts(condFacts(ret.Block())) {
 			switch cls := classifyErrCond(cf.Cond); {
@@ -646,9 +679,9 @@ func checkWrapperAgreement(c *Ctx, r *Report, gate *connGate) {
 		ae := evalErr(retResult(ret, 0), 4)
 		switch gate.accepts(ae) {
 		case "yes":
-			r.OK("C04-R3", key, retPos(wrapper, ret), fmt.Sprintf("wrapped error is accepted by %s (fragments %q, %%w types %v)", fname(gate.Fn), ae.Fragments, ae.WrapsTypes))
+			r.OK("C04-R3", key, retPos(x.f, ret), fmt.Sprintf("wrapped error is accepted by %s (fragments %q, %%w types %v)", fname(gate.Fn), ae.Fragments, ae.WrapsTypes))
 		default:
-			r.Bad("C04-R3", key, retPos(wrapper, ret), fmt.Sprintf("the wrapper turns a %s failure into an error the retry predicate %s does not accept (fragments %q): no failover for this fault kind", class, fname(gate.Fn), ae.Fragments))
+			r.Bad("C04-R3", key, retPos(x.f, ret), fmt.Sprintf("the wrapper turns a %s failure into an error the retry predicate %s does not accept (fragments %q): no failover for this fault kind", class, fname(gate.Fn), ae.Fragments))
 		}
 	}
 }
